@@ -205,6 +205,9 @@ func init() {
 				}
 				rs = append(rs, [2]int64{lo, hi})
 			}
+			if len(rs) == 1 && rs[0][0] == rs[0][1] {
+				return int(rs[0][0]), true // a single value: concrete
+			}
 			v := X.NewVar(varName(strArg(args[0])), 64, uint64(rs[0][0]), func(v *Term) *Term {
 				c := TFalse
 				for _, r := range rs {
@@ -333,12 +336,13 @@ func init() {
 			if v := Params["jitter_ns"]; v != "" {
 				fmt.Sscanf(v, "%d", &s.jitter)
 			}
+			s.voluntaryChoice = Params["sched_voluntary_choice"] != ""
 			if v := Params["max_clock_advance_ns"]; v != "" {
 				fmt.Sscanf(v, "%d", &s.maxAdv)
 			}
 			Sched = s
 			call(fr.i, fr, 0, args[2], nil)
-			s.waitAll()
+			s.waitAll(false)
 			for _, r := range s.races {
 				X.Notes = append(X.Notes, r)
 			}
@@ -354,13 +358,20 @@ func init() {
 			if Sched == nil {
 				panic(engineBug("verifGo outside verifConcurrent"))
 			}
-			Sched.spawn(fr.i, args[0], nil)
+			Sched.spawn(fr.i, args[0], nil).joinable = true
 			Sched.yieldPoint("go", false)
 			return nil, true
 		},
 		"verifWaitAll": func(fr *frame, args []value) (value, bool) {
 			if Sched != nil {
-				Sched.waitAll()
+				Sched.waitAll(true)
+			}
+			return nil, true
+		},
+		"verifPreempt": func(fr *frame, args []value) (value, bool) {
+			// allow n more pre-emptions from here on (0 closes the window)
+			if Sched != nil {
+				Sched.maxPreempt = Sched.preemptions + args[0].(int)
 			}
 			return nil, true
 		},
